@@ -73,6 +73,8 @@ pub struct History {
     pub starts_override: Option<Vec<Vec<f64>>>,
     /// uniform samples come from this list (cyclic) instead of the planner's generator
     pub script: Option<Vec<Vec<f64>>>,
+    /// PRM build time passed to `PRM::new` verbatim (seconds) instead of the sample budget
+    pub prm_build_override: Option<f64>,
 }
 impl History {
     pub fn to_json(&self) -> Value {
@@ -80,7 +82,8 @@ impl History {
                "prm_samples":self.prm_samples,"ops":self.ops.iter().map(|o| o.to_json()).collect::<Vec<_>>(),
                "uniform_fail_at":self.uniform_fail_at,
                "starts_override":self.starts_override.as_ref().map(|l| l.iter().map(|s| crate::util::fjs(s)).collect::<Vec<_>>()),
-               "script":self.script.as_ref().map(|l| l.iter().map(|s| crate::util::fjs(s)).collect::<Vec<_>>())})
+               "script":self.script.as_ref().map(|l| l.iter().map(|s| crate::util::fjs(s)).collect::<Vec<_>>()),
+               "prm_build_override":self.prm_build_override.map(crate::util::fj)})
     }
     pub fn from_json(v: &Value) -> History {
         History {
@@ -91,6 +94,7 @@ impl History {
             uniform_fail_at: v["uniform_fail_at"].as_u64(),
             starts_override: v["starts_override"].as_array().map(|a| a.iter().map(crate::util::parse_fs).collect()),
             script: v["script"].as_array().map(|a| a.iter().map(crate::util::parse_fs).collect()),
+            prm_build_override: if v["prm_build_override"].is_null() { None } else { Some(crate::util::parse_f(&v["prm_build_override"])) },
         }
     }
     pub fn describe(&self) -> String {
@@ -125,7 +129,7 @@ pub struct CallRec {
 pub fn run_history<K: Kit>(kit: &K, h: &History, keep_events: bool, budget: u64) -> Result<(Drv<K>, Vec<CallRec>), String> {
     crate::watch::set_case(h.to_json());
     oxmpl::verif::arm(0);
-    let build_secs = (h.prm_samples as f64 - 0.5) * 1e-3;
+    let build_secs = h.prm_build_override.unwrap_or((h.prm_samples as f64 - 0.5) * 1e-3);
     let mut d = Drv::new(kit, &h.params, build_secs).map_err(|r| format!("constructor: {}", r.short()))?;
     {
         let mut l = d.log.borrow_mut();
